@@ -15,8 +15,8 @@ Open Scope N_scope.
     - gRPC endpoint URLs name a host and nothing else ([grpc_guard]);
     - paths given by options are tidy, the generic endpoint's path is plain ([path_inputs_ok]);
     - [path_shape_uniform], [hdrs_wellformed], [comp_wellformed] exclude exactly the shapes of the
-      recorded findings F-C20-2..5 (see the [_refuted] theorems below); for the log family the
-      last two are [true]. *)
+      recorded findings F-C20-3..5 (see the [_refuted] theorems below); for the log family all
+      three are [true]. *)
 Theorem c20_precedence : forall f pr opts e, env_trimmed e = true ->
   let c := exporter_config f pr opts e in
   (grpc_guard pr e -> c_host c = exp_host pr opts e) /\
@@ -27,11 +27,10 @@ Theorem c20_precedence : forall f pr opts e, env_trimmed e = true ->
 Proof. exact precedence. Qed.
 Print Assumptions c20_precedence.
 
-(** The signal path is appended to a generic endpoint (all three HTTP exporters; for the log
-    exporter when the endpoint's path does not end in '/'). *)
+(** The signal path is appended to a generic endpoint (all three HTTP exporters, uniformly since
+    fix 19c40b9 of F-C20-2). *)
 Theorem c20_generic_path_appended : forall f opts e u, env_trimmed e = true -> path_inputs_ok opts e = true ->
   last_some opt_path opts = None -> rd_url (spec_ep e) = None -> rd_url (gen_ep e) = Some u ->
-  (f = FLog -> ends_with_slash (u_path u) = false) ->
   c_path (exporter_config f PHttp opts e) = strip_slash (u_path u) ++ sig_path f.
 Proof. exact generic_path_appended. Qed.
 Print Assumptions c20_generic_path_appended.
@@ -62,14 +61,6 @@ Proof. exact invalid_ignored. Qed.
 Print Assumptions c20_invalid_ignored_or_documented.
 
 (** The recorded non-uniformities: without the guards the statements are false. *)
-(** F-C20-2: OTEL_EXPORTER_OTLP_ENDPOINT=http://h/ makes the log HTTP exporter post to //v1/logs. *)
-Theorem c20_log_generic_trailing_slash_refuted :
-  exists e, env_trimmed e = true /\ path_inputs_ok [] e = true /\
-            c_path (exporter_config FLog PHttp [] e) <> exp_path FLog [] e /\
-            c_path (exporter_config FLog PHttp [] e) = str "//v1/logs".
-Proof. exact log_generic_trailing_slash_refuted. Qed.
-Print Assumptions c20_log_generic_trailing_slash_refuted.
-
 (** F-C20-3: OTEL_EXPORTER_OTLP_TRACES_ENDPOINT=http://h/custom/ is cleaned to /custom by the
     trace exporter (the log exporter uses /custom/). *)
 Theorem c20_specific_path_cleaned_refuted :
@@ -164,6 +155,12 @@ Example ex_generic_appended :
   exists u, rd_url (gen_ep ex_env) = Some u /\ rd_url (spec_ep ex_env) = None /\
             strip_slash (u_path u) ++ sig_path FMetric = str "/pre/v1/metrics".
 Proof. eexists. repeat split; vm_compute; reflexivity. Qed.
+
+(** The old F-C20-2 witness (generic endpoint http://h/) now meets the uniform statement. *)
+Example ex_f2_fixed :
+  c_path (exporter_config FLog PHttp [] env_f2) = str "/v1/logs" /\
+  c_path (exporter_config FLog PHttp [] env_f2) = exp_path FLog [] env_f2.
+Proof. exact log_generic_trailing_slash_fixed. Qed.
 
 Example ex_scrub : scrub ex_env <> ex_env /\ spec_tmo (scrub ex_env) = [] /\ gen_tmo (scrub ex_env) = str "3000".
 Proof. repeat split; vm_compute; congruence. Qed.
